@@ -59,9 +59,16 @@ impl Cell {
 
             assert!(!state.is_writing, "currently writing to cell");
 
-            state.is_reading += 1;
             state.read_locations.track(location, &execution.threads);
-            state.track_read(&execution.threads);
+
+            // A destructor that runs while the thread unwinds from a panic is
+            // not checked: a second panic would abort the process.
+            if !std::thread::panicking() {
+                state.track_read(&execution.threads);
+            }
+
+            // Only now (the check above may panic) is the cell being read.
+            state.is_reading += 1;
 
             Reading { state: self.state }
         })
@@ -75,9 +82,13 @@ impl Cell {
             assert!(state.is_reading == 0, "currently reading from cell");
             assert!(!state.is_writing, "currently writing to cell");
 
-            state.is_writing = true;
             state.write_locations.track(location, &execution.threads);
-            state.track_write(&execution.threads);
+
+            if !std::thread::panicking() {
+                state.track_write(&execution.threads);
+            }
+
+            state.is_writing = true;
 
             Writing { state: self.state }
         })
